@@ -13,6 +13,7 @@ PROP = "C05"
 def run(ctx):
     codec.design_model(ctx)
     types = codec.universe(ctx, ctx.pick(120, 1500), ctx.pick(1, 2))
+    codec.mark_services(types)
     camp = codec.Campaign(ctx, types, codec.std_specs(ctx, variants=not ctx.quick), with_py=True, batch=ctx.pick(40, 60))
     camp.build()
     codec.report_gen_failures(camp, ctx, PROP)
